@@ -423,6 +423,7 @@ func TestC38(t *testing.T) {
 		res := runScenario(sc, r, cn)
 		desc := fmt.Sprintf("scenario %d mode=%s MaxConns=%d MaxPendingRequests=%d callers=%d(x%d, %d plain Do) ReadTimeout=%v", i, sc.mode, sc.maxConns, sc.maxPending, sc.callers, sc.perCaller, sc.doCallers, sc.readTmo)
 		if res.doStuck {
+			r.Event("inconclusive_callers_stuck", 1)
 			r.Inconclusive(desc + ": callers still blocked 60 s after the server released everything and closed its connections")
 			return
 		}
@@ -486,6 +487,7 @@ func TestC38(t *testing.T) {
 		}
 		// 3. overflowed ids never reached the server
 		if !res.drained {
+			r.Event("inconclusive_server_not_drained", 1)
 			r.Inconclusive(desc + ": the tag server's connections did not all finish; overflow/transmission check skipped")
 		} else {
 			for _, c := range res.calls {
